@@ -6,6 +6,8 @@
    - output/cssdata.rs  CssData::load_module (cache keyed by the textual path)
    - output/transform.rs Item::Use / Item::Forward / Item::Import, sass/mixin.rs MixinDecl::LoadCss
      (positions of the unlock calls, the fresh CssData of an @import, the plain-css fallback)
+   - state of /repo after the fix commits 3dfdada (unchanged-url fallback), d80c9be (fn normalize) and
+     2454c18 (load-css keeps the file locked while its body is evaluated)
 
    The candidate rules, the direct suffixes and the plain-css condition come from Gen/Candidates.v,
    which is regenerated from the Rust source on every check. *)
@@ -64,13 +66,40 @@ Definition probe_names (url : string) (cs : list (list piece)) : list string :=
 (* relative(): directory part of the importing file's url, then the url *)
 Definition relative (cur url : string) : string := fst (split_dir cur) ++ url.
 
-(* Context::find_file (after fix 3dfdada): do_find_file on the relative url; when that finds nothing
-   and the relative url differs from the url, do_find_file on the url unchanged.  do_find_file scans
-   its names in order and stops at the first hit or error, so the two calls in sequence are one scan
-   of the concatenated list (Proofs/C04.v try_names_app states the two-phase form). *)
+(* str::split('/') *)
+Fixpoint split_slash_aux (s : string) (cur : string) : list string :=
+  match s with
+  | EmptyString => [cur]
+  | String c r => if Ascii.eqb c "/"%char then cur :: split_slash_aux r "" else split_slash_aux r (cur ++ String c "")
+  end.
+Definition segments (s : string) : list string := split_slash_aux s "".
+
+(* fn normalize (fix d80c9be): empty and `.` segments are dropped, `x/..` is folded (a `..` that has
+   nothing to fold stays), a leading `/` is kept.  `parts_rev` is the Vec `parts`, last element first. *)
+Fixpoint norm_parts (parts_rev : list string) (segs : list string) : list string :=
+  match segs with
+  | [] => rev parts_rev
+  | sg :: r =>
+      if String.eqb sg "" || String.eqb sg "." then norm_parts parts_rev r
+      else if String.eqb sg ".." then
+        match parts_rev with
+        | p :: rest => if String.eqb p ".." then norm_parts (sg :: parts_rev) r else norm_parts rest r
+        | [] => norm_parts [sg] r
+        end
+      else norm_parts (sg :: parts_rev) r
+  end.
+
+Definition normalize (url : string) : string :=
+  (if starts_with url "/" then "/" else "") ++ String.concat "/" (norm_parts [] (segments url)).
+
+(* Context::find_file (after fixes 3dfdada and d80c9be): the url is normalized; do_find_file on the
+   normalized relative url; when that finds nothing and it differs from the url, do_find_file on the
+   url itself.  do_find_file scans its names in order and stops at the first hit or error, so the two
+   calls in sequence are one scan of the concatenated list (Proofs/C04.v find_file_two_phase). *)
 Definition find_names (cur : string) (k : kind) (u : string) : list string :=
-  let rel := relative cur u in
-  probe_names rel (cands k) ++ (if String.eqb rel u then [] else probe_names u (cands k)).
+  let url := normalize u in
+  let rel := normalize (relative cur url) in
+  probe_names rel (cands k) ++ (if String.eqb rel url then [] else probe_names url (cands k)).
 
 (* SourceFormat::try_from *)
 Definition known_format (path : string) : bool := ends_with path ".scss" || ends_with path ".css".
@@ -122,7 +151,8 @@ Definition body : Type := list directive.
 
 Inductive event : Type :=
 | EvBody (k : kind) (path id : string)   (* the body of a file starts executing *)
-| EvCached (path : string).              (* load_module found the path in the cache *)
+| EvCached (path : string)               (* load_module found the path in the cache *)
+| EvDone (path : string).                (* the body of the file has been executed to its end *)
 
 Record state : Type := mkSt {
   loading : list string;     (* Context.loading: keys only *)
@@ -203,6 +233,14 @@ Fixpoint exec_body (loadf : bool -> string -> kind -> string -> state -> res)
       end
   end.
 
+(* the body of the file p (= the file id), bracketed by the ghost events EvBody / EvDone *)
+Definition exec_file (loadf : bool -> string -> kind -> string -> state -> res)
+           (k : kind) (p id : string) (s1 : state) : res :=
+  match exec_body loadf p (content id) (note (EvBody k p id) s1) with
+  | ROk s2 => ROk (note (EvDone p) s2)
+  | e => e
+  end.
+
 (* one load directive; `unq` = the url is an unquoted url(..) *)
 Fixpoint load (fuel : nat) (unq : bool) (cur : string) (k : kind) (u : string) (s : state) : res :=
   match fuel with
@@ -213,7 +251,7 @@ Fixpoint load (fuel : nat) (unq : bool) (cur : string) (k : kind) (u : string) (
     | LNone s' =>
         if is_import k && plain_css u unq then ROk (push_import u s') else RErr ENotFound s'
     | LFile p id s' =>
-        let run := fun s1 => exec_body (load f) p (content id) (note (EvBody k p id) s1) in
+        let run := exec_file (load f) k p id in
         match k with
         | KUse | KForward =>
             (* load_module(path, init); unlock *)
@@ -229,15 +267,18 @@ Fixpoint load (fuel : nat) (unq : bool) (cur : string) (k : kind) (u : string) (
             | e => e
             end
         | KLoadCss =>
-            (* unlocked BEFORE the body is evaluated *)
-            run (unlock p s')
+            (* (fix 2454c18) the file stays locked until the body has been evaluated *)
+            match run s' with
+            | ROk s2 => ROk (unlock p s2)
+            | e => e
+            end
         end
     end
   end.
 
 (* Context::transform on the root file: locked under its own name *)
 Definition run (fuel : nat) (root rootid : string) : res :=
-  match exec_body (load fuel) root (content rootid) (note (EvBody KImport root rootid) (st0 root)) with
+  match exec_file (load fuel) KImport root rootid (st0 root) with
   | ROk s => ROk (unlock root s)
   | e => e
   end.
